@@ -2,7 +2,7 @@
   Proof obligation over the decision table that `harness/props/c16.py: tables` extracts on every run by
   *executing* the real `lemoncheesecake.helpers.text.jsonify` (`Generated/C16Tables.lean`, git-ignored):
   a dict whose keys are of any two of the key types `None / bool / int / float / str` (every ordered pair of a
-  16-key alphabet, 241 rows) is rendered — never rejected — with the keys in insertion order, each coerced the way
+  16-key alphabet, 248 rows) is rendered — never rejected — with the keys in insertion order, each coerced the way
   `json.dumps` does.  If the rendering starts to depend on an order between keys of different types (or to raise
   for them), `decide` fails here.
 -/
